@@ -4,7 +4,7 @@
    change it: that the C++ does not is checked by dumping it before and after).  (That NO state is shared between result sets in the C++ — statics,
    caches, mutable members — is what the correspondence check examines.) *)
 From Coq Require Import ZArith NArith List Bool.
-From Dwgrep Require Import Radix Value Words Tree Engine Build Api ApiProofs.
+From Dwgrep Require Import Radix Value Words Tree Engine Build Api ApiProofs Quiet EngineProofs StarvedProofs.
 Import ListNotations.
 
 (* In any history of execute / pull / destroy operations over any number of
@@ -55,6 +55,16 @@ Theorem C12_reexecute_starts_over : forall P blks prog fuel r h t l input n,
   exists before, answers_for r (run_hist P blks prog fuel t h) = before ++ fresh_run P blks prog fuel input n.
 Proof. exact reexecute_starts_over. Qed.
 Print Assumptions C12_reexecute_starts_over.
+
+(* Consumed fully, and then asked again: once a result set (the engine model's
+   chain for one execution) has reported the end, every later pull reports the
+   end again - nothing, no diagnostic - and leaves the chain pristine. *)
+Theorem C12_after_the_end : forall P blks, Forall quiet blks -> forall f env m sl s outs m1 c1 s1,
+  quiet m -> drains P blks f env m (LOrigin sl) s outs m1 c1 s1 ->
+  forall g s2 r m2 c2 s3 e, EngineM.next P blks g env m1 c1 s2 = Ret (r, m2, c2, s3, e) ->
+  r = None /\ e = [] /\ quiet m2 /\ reset m2 = reset m /\ c2 = LOrigin None.
+Proof. exact after_the_end. Qed.
+Print Assumptions C12_after_the_end.
 
 Example C12_nonvacuous :
   let tc := ValueM.mktc 2 3 4 5 [] in
